@@ -538,6 +538,12 @@ class Comparer:
                     kb += 1
                 continue
             xa, xb = ia[ka], ib[kb]
+            if self.allow_reorder and not self._items_match(xa, xb, ea, eb, fa, fb):
+                # sigma mode: the renamed program may list independent statements in another order
+                j = self._find_commuting(ib, kb, xa, ea, eb, fa, fb)
+                if j is not None:
+                    ib = ib[:kb] + [ib[j]] + ib[kb:j] + ib[j + 1:]
+                    xb = ib[kb]
             # one-sided ignorable items (projection mode: output-only statements)
             if xa[0] != xb[0] or not self._same_shape(xa, xb):
                 if self._ignorable_item(xa, self.a):
@@ -648,13 +654,26 @@ class Comparer:
         self.points = pts
         return r
 
+    def _items_match(self, xa, xb, ea, eb, fa, fb) -> bool:
+        """Cheap test whether two items can be each other's counterpart: same kind, and for `if` the same first
+        guard, for simple statements the same (canonically named) targets."""
+        if xa[0] != xb[0]:
+            return False
+        if xa[0] == 'if':
+            return self._guards_match(xa, xb, ea, eb, fa, fb)
+        if xa[0] == 'simple':
+            wa = {self.a.cn(n) for n in assigned_names([xa]) | stored_arrays([xa])}
+            wb = {self.b.cn(n) for n in assigned_names([xb]) | stored_arrays([xb])}
+            return wa == wb
+        return True
+
     def _find_commuting(self, ib, kb, xa, ea, eb, fa, fb) -> Optional[int]:
-        """Find an `if` item after position kb in ib whose first guard matches xa's and which
+        """Find an item after position kb in ib that can be the counterpart of xa (see _items_match) and which
         commutes with all the items it would jump over (disjoint writes, no read/write overlap)."""
         j = kb + 1
         moved_over = [ib[kb]]
-        while j < len(ib) and ib[j][0] == 'if':
-            if self._guards_match(xa, ib[j], ea, eb, fa, fb):
+        while j < len(ib) and ib[j][0] in ('if', 'simple'):
+            if self._items_match(xa, ib[j], ea, eb, fa, fb):
                 wj = assigned_names([ib[j]]) | stored_arrays([ib[j]])
                 rj = read_names([ib[j]])
                 for m in moved_over:
